@@ -1768,6 +1768,365 @@ def gen_biccs():
 GENERATORS["Biccs"] = gen_biccs
 
 
+# ---------------------------------------------------------------------------------------------------------
+# GFA.find_component / GFA.all_components / GFA.dfs: every statement of the three functions, in source order (C15, C06, C18)
+
+_SEARCH_RESERVED = {"σ", "nb", "Vs", "fuel", "vis", "r", "fun", "let", "if", "then", "else", "match", "with", "at", "from", "have", "show",
+                    "do", "end", "open", "in", "def", "by", "where", "structure", "instance", "theorem", "Type", "Prop", "true", "false",
+                    "whileFuel", "insertSet", "decide", "V"}
+
+
+class _SearchTr:
+    """State-passing translation of a small imperative subset of Python.
+
+    The mutable collections of the function are the fields of a Lean structure, threaded as `σ`; the per-node attribute `visited`
+    is the field `vis` (the ids whose flag is set).  Representation, decided from the source: a list on which `.pop()` is called is kept
+    with its END first (`append` = cons, `pop()` = head/tail), any other list in its natural order (`append` = `++ [x]`), a set as a
+    list that `add` extends through `insertSet`.  `for x in e: body` becomes a `foldl` of the translated body over the translated `e`,
+    `while c: body` becomes `whileFuel cCond cStep fuel` with the body translated into the definition `cStep`; `continue` ends the
+    translated body, `return` ends the translated function.  A local variable is a `let`; it may only be read where every path to
+    the read has assigned it in the same function/loop body (otherwise `Untranslatable`)."""
+
+    def __init__(self, mod, fn, struct, prefix, expect, flags, ret, callee=None):
+        self.mod, self.fn, self.struct, self.prefix, self.flags, self.ret, self.callee = mod, fn, struct, prefix, flags, ret, callee
+        self.params = [a.arg for a in fn.args.args[1:]]
+        if (not fn.args.args or fn.args.args[0].arg != "self" or fn.args.vararg or fn.args.kwarg or fn.args.kwonlyargs or fn.args.defaults
+                or fn.decorator_list):
+            raise Untranslatable("%s: signature" % fn.name)
+        self.kinds = self._collections(fn)
+        if self.kinds != expect:
+            raise Untranslatable("%s: mutable collections %s, expected %s" % (fn.name, self.kinds, expect))
+        for n in ast.walk(fn):
+            if isinstance(n, (ast.Assign, ast.AugAssign, ast.AnnAssign, ast.For, ast.NamedExpr, ast.comprehension)):
+                tg = n.targets if isinstance(n, ast.Assign) else [n.target]
+                for t in tg:
+                    for x in ast.walk(t):
+                        if isinstance(x, ast.Name) and isinstance(x.ctx, ast.Store) and x.id in self.params + ["self"]:
+                            raise Untranslatable("%s: parameter %s is assigned" % (fn.name, x.id))
+        self.loop = None
+        self._helpers = {}
+
+    # -- which names are mutable collections, and how they are represented
+    @staticmethod
+    def _collection_kind(v):
+        if isinstance(v, ast.List):
+            return "list"
+        if isinstance(v, ast.Call) and isinstance(v.func, ast.Name) and not v.args and not v.keywords and v.func.id in ("list", "set"):
+            return v.func.id
+        return None
+
+    def _collections(self, fn):
+        kinds = {}
+        for n in ast.walk(fn):
+            if isinstance(n, ast.Assign) and len(n.targets) == 1 and isinstance(n.targets[0], ast.Name):
+                k = self._collection_kind(n.value)
+                if k:
+                    if kinds.setdefault(n.targets[0].id, k) != k:
+                        raise Untranslatable("%s is a list and a set" % n.targets[0].id)
+        for n in ast.walk(fn):
+            if (isinstance(n, ast.Call) and isinstance(n.func, ast.Attribute) and n.func.attr == "pop" and isinstance(n.func.value, ast.Name)
+                    and kinds.get(n.func.value.id) == "list"):
+                kinds[n.func.value.id] = "stack"
+        return kinds
+
+    # -- the small methods of GFA the three functions go through: used only if they are what the translation takes them for
+    def helper(self, name, want):
+        if name not in self._helpers:
+            h = find_func(self.mod, name, cls="GFA")
+            body = [ast.unparse(x) for x in h.body if not (isinstance(x, ast.Expr) and isinstance(x.value, ast.Constant))]
+            args = [a.arg for a in h.args.args]
+            self._helpers[name] = (args, body)
+        args, body = self._helpers[name]
+        if body != [w % tuple(args[1:]) for w in want] or args[0] != "self":
+            raise Untranslatable("GFA.%s is not %s" % (name, want))
+
+    def local(self, name):
+        if name in _SEARCH_RESERVED or name in self.kinds or not name.isidentifier() or not name.isascii():
+            raise Untranslatable("local name %s" % name)
+        return name
+
+    def node_key(self, e, sc):
+        """`self.nodes[k]` / `self[k]` -> the translated k (a node outside the graph: KeyError / None, see TieA12)"""
+        if isinstance(e, ast.Subscript):
+            b = ast.unparse(e.value)
+            if b == "self":
+                self.helper("__getitem__", ["try:\n    return self.nodes[%s]\nexcept KeyError:\n    return None"])
+            if b in ("self", "self.nodes"):
+                return self.val(e.slice, sc)
+        return None
+
+    def node_list(self, e):
+        """expressions that denote the node ids in dict order"""
+        u = ast.unparse(e)
+        if u in ("self.nodes", "self.nodes.keys()", "list(self.nodes.keys())", "list(self.nodes)"):
+            return "Vs"
+        return None
+
+    def val(self, e, sc):
+        if isinstance(e, ast.Name):
+            if e.id == "__fc_result__":
+                return "r.1"
+            if e.id in self.kinds:
+                if e.id not in sc:
+                    raise Untranslatable("%s is read before it is assigned" % e.id)
+                return "σ.%s" % e.id
+            if e.id in sc:
+                return self.local(e.id)
+            raise Untranslatable("name %s is not in scope" % e.id)
+        if isinstance(e, ast.Constant) and isinstance(e.value, int) and not isinstance(e.value, bool) and e.value >= 0:
+            return str(e.value)
+        if isinstance(e, ast.List):
+            return "[" + ", ".join(self.val(x, sc) for x in e.elts) + "]"
+        if self.node_list(e) and isinstance(e, ast.Call):
+            return self.node_list(e)
+        if isinstance(e, ast.Call) and not e.keywords:
+            fu = ast.unparse(e.func)
+            if fu == "len" and len(e.args) == 1:
+                a = e.args[0]
+                if ast.unparse(a) == "self":
+                    self.helper("__len__", ["return len(self.nodes)"])
+                    return "Vs.length"
+                if ast.unparse(a) == "self.nodes":
+                    return "Vs.length"
+                return "%s.length" % self.val(a, sc)
+            if fu in ("list", "set") and not e.args:
+                return "[]"
+            if isinstance(e.func, ast.Attribute) and e.func.attr == "neighbors" and not e.args:
+                k = self.node_key(e.func.value, sc)
+                if k:
+                    return "(nb %s)" % k
+        if (isinstance(e, ast.Subscript) and isinstance(e.slice, ast.Constant) and isinstance(e.slice.value, int)
+                and not isinstance(e.slice.value, bool) and e.slice.value >= 0 and isinstance(e.value, (ast.Call, ast.Name, ast.List))):
+            return "(%s.getD %d \"\")" % (self.val(e.value, sc), e.slice.value)
+        raise Untranslatable("%s value: %s" % (self.fn.name, ast.unparse(e)[:70]))
+
+    def cond(self, e, sc):
+        if isinstance(e, ast.BoolOp):
+            return "(" + (" && " if isinstance(e.op, ast.And) else " || ").join(self.cond(x, sc) for x in e.values) + ")"
+        if isinstance(e, ast.UnaryOp) and isinstance(e.op, ast.Not):
+            return "(!%s)" % self.cond(e.operand, sc)
+        if isinstance(e, ast.Constant) and isinstance(e.value, bool):
+            return "true" if e.value else "false"
+        if isinstance(e, ast.Name) and e.id in self.kinds:
+            return "(!%s.isEmpty)" % self.val(e, sc)
+        if isinstance(e, ast.Attribute) and e.attr == "visited" and self.flags:
+            k = self.node_key(e.value, sc)
+            if k:
+                return "(σ.vis.contains %s)" % k
+        if isinstance(e, ast.Compare) and len(e.ops) == 1:
+            l, r, t = e.left, e.comparators[0], type(e.ops[0])
+            if t in (ast.In, ast.NotIn):
+                if ast.unparse(r) == "self":
+                    self.helper("__contains__", ["return %s in self.nodes"])
+                    c = "Vs"
+                elif self.node_list(r):
+                    c = self.node_list(r)
+                elif isinstance(r, ast.Name):
+                    c = self.val(r, sc)
+                else:
+                    raise Untranslatable("%s membership in %s" % (self.fn.name, ast.unparse(r)[:50]))
+                c = "(%s.contains %s)" % (c, self.val(l, sc))
+                return c if t is ast.In else "(!%s)" % c
+            op = {ast.Lt: "<", ast.Gt: ">", ast.LtE: "≤", ast.GtE: "≥", ast.Eq: "=", ast.NotEq: "≠"}.get(t)
+            if op:
+                return "decide (%s %s %s)" % (self.val(l, sc), op, self.val(r, sc))
+        raise Untranslatable("%s test: %s" % (self.fn.name, ast.unparse(e)[:70]))
+
+    def iterable(self, e, sc):
+        if self.node_list(e):
+            return self.node_list(e)
+        if isinstance(e, ast.Name) and e.id in self.kinds:
+            raise Untranslatable("loop over the mutable %s" % e.id)
+        return self.val(e, sc)
+
+    def collection(self, v, kind, sc):
+        k = self._collection_kind(v)
+        if k is None or (k == "set") != (kind == "set"):
+            raise Untranslatable("%s: %s assigned to a %s" % (self.fn.name, ast.unparse(v)[:50], kind))
+        elts = [self.val(x, sc) for x in v.elts] if isinstance(v, ast.List) else []
+        if kind == "stack":
+            elts.reverse()
+        return "[" + ", ".join(elts) + "]"
+
+    def ex(self, stmts, sc, ind, ctx):
+        pad = " " * ind
+        S = self.struct
+        if not stmts:
+            if ctx == "func":
+                raise Untranslatable("%s may end without a return" % self.fn.name)
+            return pad + "σ"
+        st, rest = stmts[0], stmts[1:]
+        u = ast.unparse(st)
+        if isinstance(st, ast.Expr) and isinstance(st.value, ast.Constant):
+            return self.ex(rest, sc, ind, ctx)
+        if isinstance(st, ast.Continue):
+            if ctx != "loop":
+                raise Untranslatable("continue outside a loop")
+            return pad + "σ"
+        if isinstance(st, ast.Return):
+            if ctx != "func" or st.value is None:
+                raise Untranslatable("%s: %s inside a loop" % (self.fn.name, u[:40]))
+            return pad + self.ret(self.val(st.value, sc))
+
+        def upd(field, text, sc2=None):
+            return "%slet σ : %s := { σ with %s := %s }\n%s" % (pad, S, field, text, self.ex(rest, sc if sc2 is None else sc2, ind, ctx))
+        # a call of the other translated function: it runs first (flags included), the statement then uses its value
+        head = st.test if isinstance(st, (ast.If, ast.While)) else st.iter if isinstance(st, ast.For) else st
+        calls = [n for n in ast.walk(head) if isinstance(n, ast.Call) and isinstance(n.func, ast.Attribute) and ast.unparse(n.func.value) == "self"
+                 and n.func.attr not in ("set_visited",)]
+        if calls:
+            c = calls[0]
+            if (len(calls) != 1 or self.callee is None or c.func.attr != self.callee[0] or len(c.args) != 1 or c.keywords
+                    or not isinstance(st, ast.Expr) or not self.flags):
+                raise Untranslatable("%s: call %s" % (self.fn.name, ast.unparse(c)[:60]))
+            arg = self.val(c.args[0], sc)
+
+            class Repl(ast.NodeTransformer):
+                def visit_Call(self, node):
+                    if node is c:
+                        return ast.Name(id="__fc_result__", ctx=ast.Load())
+                    return self.generic_visit(node)
+            st2 = ast.fix_missing_locations(Repl().visit(st))
+            return ("%slet r := %s nb fuel %s σ.vis\n%slet σ : %s := { σ with vis := r.2 }\n%s"
+                    % (pad, self.callee[1], arg, pad, S, self.ex([st2] + rest, sc, ind, ctx)))
+        if isinstance(st, ast.If):
+            return "%sif %s then\n%s\n%selse\n%s" % (pad, self.cond(st.test, sc), self.ex(st.body + rest, sc, ind + 2, ctx), pad,
+                                                     self.ex(st.orelse + rest, sc, ind + 2, ctx))
+        if isinstance(st, ast.For) and not st.orelse and isinstance(st.target, ast.Name):
+            v = self.local(st.target.id)
+            if v in self.params:
+                raise Untranslatable("loop variable %s" % v)
+            body = self.ex(st.body, sc | {v}, ind + 4, "loop")
+            return "%slet σ : %s := %s.foldl (fun (σ : %s) %s =>\n%s) σ\n%s" % (pad, S, self.iterable(st.iter, sc), S, v, body,
+                                                                              self.ex(rest, sc, ind, ctx))
+        if isinstance(st, ast.While) and not st.orelse:
+            if ctx != "func" or self.loop is not None:
+                raise Untranslatable("%s: nested or second while" % self.fn.name)
+            body_sc = {k for k in self.kinds if k in sc}     # the body sees the collections only: no local survives an iteration
+            self.loop = (self.cond(st.test, body_sc), self.ex(st.body, body_sc, 2, "loop"))
+            return "%slet σ : %s := whileFuel %sCond (%sStep nb) fuel σ\n%s" % (pad, S, self.prefix, self.prefix, self.ex(rest, sc, ind, ctx))
+        if isinstance(st, ast.Assign) and len(st.targets) == 1:
+            t, v = st.targets[0], st.value
+            if isinstance(t, ast.Name) and t.id in self.kinds:
+                return upd(t.id, self.collection(v, self.kinds[t.id], sc), sc | {t.id})
+            if isinstance(t, ast.Name):
+                x = self.local(t.id)
+                if (isinstance(v, ast.Call) and isinstance(v.func, ast.Attribute) and v.func.attr == "pop" and isinstance(v.func.value, ast.Name)
+                        and v.func.value.id in self.kinds):
+                    q = v.func.value.id
+                    if v.args or v.keywords or self.kinds[q] != "stack" or q not in sc:
+                        raise Untranslatable("%s: %s" % (self.fn.name, u[:50]))
+                    return ("%slet %s := σ.%s.headD \"\"\n%slet σ : %s := { σ with %s := σ.%s.tail }\n%s"
+                            % (pad, x, q, pad, S, q, q, self.ex(rest, sc | {x}, ind, ctx)))
+                if isinstance(v, ast.Name) and v.id in self.kinds:
+                    raise Untranslatable("%s: alias of the mutable %s" % (self.fn.name, v.id))
+                return "%slet %s := %s\n%s" % (pad, x, self.val(v, sc), self.ex(rest, sc | {x}, ind, ctx))
+            if isinstance(t, ast.Attribute) and t.attr == "visited" and self.flags and isinstance(v, ast.Constant) and v.value is True:
+                k = self.node_key(t.value, sc)
+                if k:
+                    return upd("vis", "insertSet %s σ.vis" % k)
+        if isinstance(st, ast.Expr) and isinstance(st.value, ast.Call) and not st.value.keywords:
+            f, args = st.value.func, st.value.args
+            if isinstance(f, ast.Attribute) and isinstance(f.value, ast.Name) and f.value.id in self.kinds and len(args) == 1:
+                x, kind = f.value.id, self.kinds[f.value.id]
+                if x not in sc:
+                    raise Untranslatable("%s is used before it is assigned" % x)
+                a = self.val(args[0], sc)
+                if f.attr == "append" and kind == "stack":
+                    return upd(x, "%s :: σ.%s" % (a, x))
+                if f.attr == "append" and kind == "list":
+                    return upd(x, "σ.%s ++ [%s]" % (x, a))
+                if f.attr == "add" and kind == "set":
+                    return upd(x, "insertSet %s σ.%s" % (a, x))
+            if u == "self.set_visited(False)" and self.flags:
+                self.helper("set_visited", ["for n in self.nodes.values():\n    n.visited = %s"])
+                return upd("vis", "[]")
+        raise Untranslatable("%s statement: %s" % (self.fn.name, u[:70]))
+
+    def function(self, ind=2):
+        return self.ex(self.fn.body, set(self.params), ind, "func")
+
+    def loop_defs(self):
+        if self.loop is None:
+            raise Untranslatable("%s: no while loop" % self.fn.name)
+        return ("/-- the test of the `while` of `%s` -/\ndef %sCond (σ : %s) : Bool := %s\n\n"
+                "/-- its body, one iteration (`x = l.pop()` of an empty list, an IndexError, cannot happen under the test) -/\n"
+                "def %sStep (nb : V → List V) (σ : %s) : %s :=\n%s\n"
+                % (self.fn.name, self.prefix, self.struct, self.loop[0], self.prefix, self.struct, self.struct, self.loop[1]))
+
+
+SEARCH_HEADER = """import Gaftools.Model.Algo
+/-! %s -/
+namespace Gaftools.Gen.Search
+open Gaftools.Algo
+
+/-- `while c: body`, at most `fuel` iterations (the theorems are about every large enough `fuel`) -/
+def whileFuel {α : Type} (c : α → Bool) (body : α → α) : Nat → α → α
+  | 0, s => s
+  | n + 1, s => if c s then whileFuel c body n (body s) else s
+
+/-- the mutable state of `find_component`: `queue` with its END first, the set `cc`, the ids whose `visited` flag is set -/
+structure FcSt where
+  queue : List V
+  cc : List V
+  vis : List V
+
+/-- the mutable state of `all_components` -/
+structure AcSt where
+  connected_comp : List (List V)
+  vis : List V
+
+/-- the mutable state of `dfs`: `stack` with its END first -/
+structure DfsSt where
+  stack : List V
+  dfs_out : List V
+  ordered_dfs_out : List V
+
+"""
+
+
+def gen_search():
+    try:
+        return _gen_search()
+    except (Untranslatable, SyntaxError, OSError, KeyError, IndexError):
+        raise
+    except Exception as e:  # a shape the translator did not foresee is never an alarm
+        raise Untranslatable("translator: %s: %s" % (type(e).__name__, e))
+
+
+def _gen_search():
+    _, src = src_of("gaftools/gfa.py")
+    mod = ast.parse(src)
+    fc = _SearchTr(mod, find_func(mod, "find_component", cls="GFA"), "FcSt", "fc", {"queue": "stack", "cc": "set"}, True,
+                   lambda v: "(%s, σ.vis)" % v)
+    ac = _SearchTr(mod, find_func(mod, "all_components", cls="GFA"), "AcSt", "ac", {"connected_comp": "list"}, True,
+                   lambda v: "(%s, σ.vis)" % v, callee=("find_component", "findComponent"))
+    df = _SearchTr(mod, find_func(mod, "dfs", cls="GFA"), "DfsSt", "dfs", {"stack": "stack", "dfs_out": "set", "ordered_dfs_out": "list"}, False,
+                   lambda v: v)
+    if len(fc.params) != 1 or ac.params or len(df.params) != 1:
+        raise Untranslatable("parameters of the three functions")
+    fc_fn, ac_fn, df_fn = fc.function(), ac.function(), df.function()
+    if ac.loop is not None:
+        raise Untranslatable("all_components: while loop")
+    return (SEARCH_HEADER % ("generated by harness/translate.py from gaftools/gfa.py : GFA.find_component, GFA.all_components, GFA.dfs, statement by\n"
+                             "    statement; `nb n` = `self.nodes[n].neighbors()`, `Vs` = the keys of `self.nodes` in dict order — do not edit")
+            + fc.loop_defs()
+            + "\n/-- `find_component(%s)` with the flags `vis` set on entry: the returned set and the flags on exit -/\n" % fc.params[0]
+            + "def findComponent (nb : V → List V) (fuel : Nat) (%s : V) (vis : List V) : List V × List V :=\n" % fc.local(fc.params[0])
+            + "  let σ : FcSt := { queue := [], cc := [], vis := vis }\n" + fc_fn + "\n\n"
+            + "/-- `all_components()` with the flags `vis` set on entry: the returned list and the flags on exit -/\n"
+            + "def allComponents (nb : V → List V) (fuel : Nat) (Vs : List V) (vis : List V) : List (List V) × List V :=\n"
+            + "  let σ : AcSt := { connected_comp := [], vis := vis }\n" + ac_fn + "\n\n"
+            + df.loop_defs()
+            + "\n/-- `dfs(%s)` -/\n" % df.params[0]
+            + "def dfs (nb : V → List V) (fuel : Nat) (Vs : List V) (%s : V) : List V :=\n" % df.local(df.params[0])
+            + "  let σ : DfsSt := { stack := [], dfs_out := [], ordered_dfs_out := [] }\n" + df_fn + "\n"
+            + "end Gaftools.Gen.Search\n")
+
+
+GENERATORS["Search"] = gen_search
+
+
 def regenerate(only=None):
     """returns {name: {"tie": "A"|"B-only", "detail": str, "changed": bool}}"""
     os.makedirs(GEN, exist_ok=True)
@@ -1793,6 +2152,94 @@ def regenerate(only=None):
 
 
 FALLBACK = {
+    "Search": SEARCH_HEADER % ("FALLBACK (source construct outside the translator's subset): a frozen copy of the translation of the three functions\n"
+                               "    as the source stood when `Props/TieA12.lean` was written") + r'''/-- the test of the `while` of `find_component` -/
+def fcCond (σ : FcSt) : Bool := decide (σ.queue.length > 0)
+
+/-- its body, one iteration (`x = l.pop()` of an empty list, an IndexError, cannot happen under the test) -/
+def fcStep (nb : V → List V) (σ : FcSt) : FcSt :=
+  let start := σ.queue.headD ""
+  let σ : FcSt := { σ with queue := σ.queue.tail }
+  if (!(σ.cc.contains start)) then
+    let σ : FcSt := { σ with cc := insertSet start σ.cc }
+    let σ : FcSt := { σ with vis := insertSet start σ.vis }
+    let neighbors := (nb start)
+    let σ : FcSt := neighbors.foldl (fun (σ : FcSt) n =>
+        if (!(σ.vis.contains n)) then
+          let σ : FcSt := { σ with queue := n :: σ.queue }
+          σ
+        else
+          σ) σ
+    σ
+  else
+    σ
+
+/-- `find_component(start_node)` with the flags `vis` set on entry: the returned set and the flags on exit -/
+def findComponent (nb : V → List V) (fuel : Nat) (start_node : V) (vis : List V) : List V × List V :=
+  let σ : FcSt := { queue := [], cc := [], vis := vis }
+  let σ : FcSt := { σ with queue := [] }
+  let σ : FcSt := { σ with cc := [] }
+  let σ : FcSt := { σ with queue := start_node :: σ.queue }
+  let σ : FcSt := { σ with vis := insertSet start_node σ.vis }
+  let neighbors := (nb start_node)
+  if decide (neighbors.length = 0) then
+    let σ : FcSt := { σ with cc := insertSet start_node σ.cc }
+    (σ.cc, σ.vis)
+  else
+    let σ : FcSt := whileFuel fcCond (fcStep nb) fuel σ
+    (σ.cc, σ.vis)
+
+/-- `all_components()` with the flags `vis` set on entry: the returned list and the flags on exit -/
+def allComponents (nb : V → List V) (fuel : Nat) (Vs : List V) (vis : List V) : List (List V) × List V :=
+  let σ : AcSt := { connected_comp := [], vis := vis }
+  let σ : AcSt := { σ with connected_comp := [] }
+  let σ : AcSt := Vs.foldl (fun (σ : AcSt) n =>
+      if (!(σ.vis.contains n)) then
+        let r := findComponent nb fuel n σ.vis
+        let σ : AcSt := { σ with vis := r.2 }
+        let σ : AcSt := { σ with connected_comp := σ.connected_comp ++ [r.1] }
+        σ
+      else
+        σ) σ
+  let σ : AcSt := { σ with vis := [] }
+  (σ.connected_comp, σ.vis)
+
+/-- the test of the `while` of `dfs` -/
+def dfsCond (σ : DfsSt) : Bool := (!σ.stack.isEmpty)
+
+/-- its body, one iteration (`x = l.pop()` of an empty list, an IndexError, cannot happen under the test) -/
+def dfsStep (nb : V → List V) (σ : DfsSt) : DfsSt :=
+  let s := σ.stack.headD ""
+  let σ : DfsSt := { σ with stack := σ.stack.tail }
+  if (!(σ.dfs_out.contains s)) then
+    let σ : DfsSt := { σ with dfs_out := insertSet s σ.dfs_out }
+    let σ : DfsSt := { σ with ordered_dfs_out := σ.ordered_dfs_out ++ [s] }
+    let σ : DfsSt := (nb s).foldl (fun (σ : DfsSt) neighbour =>
+        let σ : DfsSt := { σ with stack := neighbour :: σ.stack }
+        σ) σ
+    σ
+  else
+    σ
+
+/-- `dfs(start_node)` -/
+def dfs (nb : V → List V) (fuel : Nat) (Vs : List V) (start_node : V) : List V :=
+  let σ : DfsSt := { stack := [], dfs_out := [], ordered_dfs_out := [] }
+  if (!(Vs.contains start_node)) then
+    []
+  else
+    if decide (Vs.length = 1) then
+      [(Vs.getD 0 "")]
+    else
+      if decide ((nb start_node).length = 0) then
+        [start_node]
+      else
+        let σ : DfsSt := { σ with dfs_out := [] }
+        let σ : DfsSt := { σ with ordered_dfs_out := [] }
+        let σ : DfsSt := { σ with stack := [start_node] }
+        let σ : DfsSt := whileFuel dfsCond (dfsStep nb) fuel σ
+        σ.ordered_dfs_out
+end Gaftools.Gen.Search
+''',
     "Biccs": """import Gaftools.Model.Algo
 /-! FALLBACK (source construct outside the translator's subset): hand-written twin re-exported -/
 namespace Gaftools.Gen
